@@ -72,7 +72,11 @@ pub fn run_case(case: &J, cli: &str, idx: usize) -> J {
             cmd.arg(&p);
         }
         "evaluate" => { cmd.arg("-e"); stdin_data = Some(script.clone()); }
-        "outfile" => { cmd.arg("-o").arg(&outfile).arg(&script); }
+        "outfile" => {
+            // every other run writes onto a file that already holds something longer (which is not an outputs object)
+            if idx % 2 == 0 { std::fs::write(&outfile, format!("\"stale {}\"\n", "x".repeat(6000))).unwrap(); }
+            cmd.arg("-o").arg(&outfile).arg(&script);
+        }
         m => panic!("mode {m}"),
     }
     cmd.stdout(Stdio::piped()).stderr(Stdio::piped());
